@@ -172,16 +172,41 @@ def r2_slices(repo: Repo, rep):
     if fi is None:
         raise AnalysisError("Points.coordinates vanished")
     rep.saw(fi)
-    for p in _ret_paths(fi):
-        lv = [k for k, it in p.loopvars.items() if dump(it) in ("self.space", "self.space.keys()")]
-        stores = [e for e in p.events if e.kind == "store"]
-        good = bool(lv) and len(stores) == 1
-        if good:
-            st = stores[0]
-            v = lv[0]
-            good = dump(st.raw.slice) == v and dump(st.value) == f"self._t[..., self._variable_slices[{v}]]"
-        rep.check(R, good, fi.site(), fi.fq, "coordinates[v] = self._t[..., slices[v]] for every v of the space",
-                  dump(stores[0].node) if stores else "no store", dump(stores[0].node) if stores else "")
+    # partial evaluation: {v: self._t[..., slices[v]]} for every v, in space order (the tensor is opaque; a subscript on it is recorded)
+
+    def resolve(e, ev, f):
+        if isinstance(e, ast.Subscript):
+            base = ev.ev(e.value, f)
+            if isinstance(base, Opaque) and base.tag == "T":
+                elts = e.slice.elts if isinstance(e.slice, ast.Tuple) else [e.slice]
+                lead = []
+                for x in elts[:-1]:
+                    lead.append("..." if isinstance(x, ast.Constant) and x.value is Ellipsis else ":" if isinstance(x, ast.Slice) and x.lower is None and x.upper is None and x.step is None else "?")
+                last = elts[-1]
+                if isinstance(last, ast.Slice):
+                    v = ev.index(last, f)
+                else:
+                    v = ev.ev(last, f)
+                if isinstance(v, slice):
+                    return ("cols", tuple(lead), v.start or 0, v.stop)
+        return None
+    for dims in ((1,), (2, 1), (1, 2, 3)):
+        space = OrderedDict((chr(ord("a") + i), d) for i, d in enumerate(dims))
+        sl, off = OrderedDict(), 0
+        for k, d in space.items():
+            sl[k] = slice(off, off + d, None)
+            off += d
+        fr = Evaluator(resolve, on_call).run(fi.node.body, {"self": Opaque("self")}, attrs={"self.space": OrderedDict(space), "self._variable_slices": OrderedDict(sl), "self._t": Opaque("T")})
+        got = fr.ret
+        label = f"space dims {dims}"
+        if not isinstance(got, dict) or any(not (isinstance(x, tuple) and x and x[0] == "cols") for x in got.values()):
+            rep.undecided(R, fi.site(), fi.fq, f"{label}: coordinates evaluable", repr(got)[:100])
+            continue
+        want = [(k, (v.start, v.stop)) for k, v in sl.items()]
+        have = [(k, (x[2], x[3])) for k, x in got.items()]
+        lead_ok = all(x[1] == ("...",) for x in got.values())
+        rep.check(R, have == want and lead_ok, fi.site(), fi.fq, f"{label}: coordinates[v] = self._t[..., slices[v]] for every v, in space order",
+                  f"{have}" + ("" if lead_ok else " (batch axes not addressed by `...`)"), f"{label}: {have}")
 
 
 def r3_selection(repo: Repo, rep, rule_id="R-C12-3"):
@@ -358,20 +383,48 @@ def r4_algebra(repo: Repo, rep):
 
 
 def r5_batch_axes(repo: Repo, rep):
-    R = rep.rule("R-C12-5", "repeat / unsqueeze touch batch axes only and keep the space", floor=2,
+    R = rep.rule("R-C12-5", "repeat / unsqueeze touch batch axes only and keep the space", floor=6,
                  why="repeating or inserting along the last axis changes the column layout under an unchanged space")
     P = repo.cls(PTS)
     fi = P.methods.get("repeat")
     if fi is None:
         raise AnalysisError("Points.repeat vanished")
     rep.saw(fi)
-    for p in _ret_paths(fi):
-        c = _points_call(p.ret)
-        good = c is not None and dump(c.args[1]) == "self.space"
-        if good:
-            t = dump(c.args[0]).replace(" ", "")
-            good = t in ("self._t.repeat(*n,*(len(self._t.shape)-len(n))*[1])", "self._t.repeat(*n,*[1]*(len(self._t.shape)-len(n)))")
-        rep.check(R, good, fi.site(), fi.fq, "self._t.repeat(*n, 1, ..., 1): trailing axes (incl. the column axis) repeated once", dump(p.ret), dump(p.ret))
+    # partial evaluation for tensors of rank 2..4 and 1..2 repeat counts: the underlying tensor is repeated with the given counts on the
+    # leading axes and 1 on every other axis (the column axis included), under the same space
+    from ..absdom.listeval import Evaluator, Obj, Opaque, UNKNOWN
+    va = fi.node.args.vararg.arg if fi.node.args.vararg else (fi.params[1] if len(fi.params) > 1 else "n")
+    for rank in (2, 3, 4):
+        for counts in ((2,), (3, 2)):
+            if len(counts) > rank - 1:
+                continue
+            shape = tuple(range(5, 5 + rank))
+            seen = {}
+
+            def on_call(e, name, args, kws, ev, f, seen=seen, rank=rank, shape=shape):
+                if name in ("self._t.repeat",) or name.endswith(".repeat") and name.split(".")[0] in ("self", "data", "tensor"):
+                    seen["repeat"] = list(args or [])
+                    return Opaque("R")
+                if name in ("torch.tile", "self._t.tile") and args:
+                    reps = list(args[1] if name == "torch.tile" and len(args) > 1 else args[0] if name != "torch.tile" and isinstance(args[0], (list, tuple)) else args[(1 if name == "torch.tile" else 0):])
+                    reps = [1] * (rank - len(reps)) + reps  # tile pads the missing factors with ones in FRONT
+                    seen["repeat"] = reps
+                    return Opaque("R")
+                if name in ("self._t.dim", "self._t.ndimension"):
+                    return rank
+                if name == "Points" and args:
+                    return ("Points", args[0], kws.get("space", args[1] if len(args) > 1 else None))
+                return None
+            T = Obj("self._t", {"shape": shape, "ndim": rank})
+            fr = Evaluator(None, on_call).run(fi.node.body, {"self": Opaque("self"), va: tuple(counts)}, attrs={"self._t": T, "self._t.shape": shape, "self._t.ndim": rank, "self.space": Opaque("space")})
+            got = fr.ret
+            label = f"rank {rank}, repeat{counts}"
+            want = list(counts) + [1] * (rank - len(counts))
+            if not (isinstance(got, tuple) and got and got[0] == "Points") or "repeat" not in seen:
+                rep.undecided(R, fi.site(), fi.fq, f"{label}: evaluable", repr(got)[:80])
+                continue
+            ok = seen["repeat"] == want and isinstance(got[1], Opaque) and got[1].tag == "R" and isinstance(got[2], Opaque) and got[2].tag == "space"
+            rep.check(R, ok, fi.site(), fi.fq, f"{label}: self._t.repeat{tuple(want)} under self.space", f"repeat{tuple(seen['repeat'])}", f"{label}: repeat{tuple(seen['repeat'])}")
     fi = P.methods.get("unsqueeze")
     if fi is None:
         raise AnalysisError("Points.unsqueeze vanished")
